@@ -255,5 +255,6 @@ LEVEL_TEXT = ("Generated search over arbitrary arc subsets (not only complete or
               "trips accessor<->latter map and accessor<->matrix, latter-map / matrix / vertex-list content against an "
               "independent construction, leaf queries at depth 0..7 from both representations against an own "
               "enumeration of walks (as multisets); rejection of illegal matrices exhaustively for single non-shift "
-              "arcs at order 2 and sampled for orders 2..3.")
+              "arcs at order 2 and sampled for orders 2..3."
+              ' Orders 5 and 6 (4,096 x 4,096 matrices) are converted both ways on seeded arc subsets, with single non-shift arcs near and far from the successor window.')
 LEVEL_NOTE = "Trusted: arc-set construction and walk enumeration in pbt/oracles.py / this module; numpy equality."
